@@ -5,7 +5,9 @@ import Femio.Driver.C05
 import Femio.Driver.C07
 import Femio.Driver.C08
 import Femio.Driver.C09
+import Femio.Driver.C11
 import Femio.Driver.C13
+import Femio.Driver.C14
 import Femio.Driver.C15
 import Femio.Driver.C17
 import Femio.Driver.C19
@@ -13,7 +15,7 @@ import Femio.Driver.C19
 open Femio
 
 def handlers : List (List String → Option String) :=
-  [ C02.handle, C04.handle, C05.handle, C07.handle, C08D.handle, C09.handle, C13.handle, C15D.handle, C17D.handle, C19.handle ]
+  [ C02.handle, C04.handle, C05.handle, C07.handle, C08D.handle, C09.handle, C11.handle, C13.handle, C14.handle, C15D.handle, C17D.handle, C19.handle ]
 
 def handleLine (line : String) : String :=
   let toks := Proto.tokens line
